@@ -295,7 +295,7 @@ ExecExit ==
 (* unsupported opcode, a register index above 10, a byte-swap width other  *)
 (* than 16/32/64, a wide load without its second slot.                     *)
 (***************************************************************************)
-RegsOK(i) == (UsesDst(i.opc) => i.dst <= 10) /\ (UsesSrc(i.opc) => i.src <= 10)
+RegsOK(i) == (UsesDst(i.opc) => i.dst <= 10) /\ (UsesSrc(i.opc) /\ i.opc # CALL => i.src <= 10)
 
 \* D: the named deviations in force for this step (normally env.dev, i.e. none)
 StepD(hr, D) ==
